@@ -358,3 +358,15 @@ M("C05", "update-without-decrease-test", GRM, "                if val < old_val:
 M("C05", "str-loses-zero-distance", GRM, "if (sym is int or sym is float or sym is str) and not self.expansion_depthing:", "if (sym is int or sym is float) and not self.expansion_depthing:", "C05.R3")
 M("C05", "reachability-filtered", GRM, "                            [argt for (_, argt) in args],\n", "                            [argt for (_, argt) in args if not is_terminal(argt, self.non_terminals)],\n", "C05.R1")
 M("C05", "twin-explode-split-branches", GRM, "                elif is_generic_list(ty) or is_annotated(ty):\n                    yield from explode_generics([get_generic_parameter(ty)])", "                elif is_generic_list(ty):\n                    yield from explode_generics([get_generic_parameter(ty)])\n                elif is_annotated(ty):\n                    yield from explode_generics([get_generic_parameter(ty)])", "", expect="silent")
+
+# ------------------------------------------------------------------------------------- C19
+M("C19", "total-not-reset", GRM, "            prods = self.alternatives[rule]\n            total_weights = 0\n", "            prods = self.alternatives[rule]\n", "C19.R1",
+  extra=[(GRM, "        weights = self.get_weights()\n        for rule in self.alternatives:", "        weights = self.get_weights()\n        total_weights = 0\n        for rule in self.alternatives:")])
+M("C19", "divide-by-count", GRM, "                weights[prod] = weights[prod] / total_weights", "                weights[prod] = weights[prod] / len(prods)", "C19.R1")
+M("C19", "sum-before-update", GRM, "                weights[prod] += learning_rate * extra_weights[prod]\n                total_weights += weights[prod]", "                total_weights += weights[prod]\n                weights[prod] += learning_rate * extra_weights[prod]", "C19.R1")
+M("C19", "default-weight-or", GRM, 'get_gengy(prod).get("weight", 1.0)', '(get_gengy(prod).get("weight") or 1.0)', "C19.R1")
+M("C19", "write-back-only-listed", GRM, "        for rule in self.alternatives:\n            for prod in self.alternatives[rule]:\n                get_gengy(prod)[\"weight\"] = weights[prod]\n", "", "C19.R1")
+M("C19", "weight-store-in-decider", INI, "        weights = [w(alt) * self.grammar.get_weights()[alt] for alt in alternatives]", "        for alt in alternatives:\n            alt.__dict__[\"__gengy__\"][\"weight\"] = 1.0\n        weights = [w(alt) * self.grammar.get_weights()[alt] for alt in alternatives]", "C19.R2")
+M("C19", "weights-misaligned", INI, "        weights = [w(alt) * self.grammar.get_weights()[alt] for alt in alternatives]", "        weights = [w(alt) * self.grammar.get_weights()[alt] for alt in sorted(self.grammar.alternatives[ty], key=str)]", "C19.R3")
+M("C19", "weighted-draw-inclusive", SRC, "self.randint(0, max(total - 1, 0))", "self.randint(0, total)", "C19.R3")
+M("C19", "twin-divide-augassign", GRM, "                weights[prod] = weights[prod] / total_weights", "                weights[prod] /= total_weights", "", expect="silent")
